@@ -91,15 +91,16 @@ class BPModel(object):
         return ''.join(sql_row(t, v) for t, v in rows)
 
     # -- classes -----------------------------------------------------------------------------------------------
-    def klass(self, key_lett, attrs, identifier=None):
+    def klass(self, key_lett, attrs, identifier=None, name=None):
         """attrs: list of (name, type) with type in boolean/integer/real/string/unique_id, or (name, type, body) for a
-        derived attribute.  identifier: names of the attributes of identifier I1 (default: the first attribute)."""
+        derived attribute.  identifier: names of the attributes of identifier I1 (default: the first attribute).
+        name: the class name (O_OBJ.Name; default: the key letters) - names need not be unique, key letters are."""
         self._numb += 1
         obj = self.uid()
         info = dict(id=obj, attrs={}, last_attr=0, key_lett=key_lett)
         self.classes[key_lett] = info
         self.pe(obj, 4)
-        self.row('O_OBJ', Obj_ID=obj, Name=key_lett, Numb=self._numb, Key_Lett=key_lett)
+        self.row('O_OBJ', Obj_ID=obj, Name=name or key_lett, Numb=self._numb, Key_Lett=key_lett)
         for a in attrs:
             self.attribute(key_lett, *a)
         for oid in (0, 1, 2):
@@ -212,11 +213,11 @@ class BPModel(object):
         self._params('O_TPARM', 'TParm_ID', 'Tfr_ID', t, 'Previous_TParm_ID', params)
         return t
 
-    def external_entity(self, key_lett, bridges):
+    def external_entity(self, key_lett, bridges, name=None):
         """bridges: list of (name, body, params, ret)."""
         ee = self.uid()
         self.pe(ee, 5)
-        self.row('S_EE', EE_ID=ee, Name=key_lett, Key_Lett=key_lett, Label=key_lett)
+        self.row('S_EE', EE_ID=ee, Name=name or key_lett, Key_Lett=key_lett, Label=name or key_lett)
         for name, body, params, ret in bridges:
             b = self.uid()
             self.row('S_BRG', Brg_ID=b, EE_ID=ee, Name=name, Brg_Typ=0, DT_ID=self.dt(ret), Action_Semantics_internal=body,
